@@ -2,6 +2,7 @@
 import json
 import os
 
+import linekindcheck
 import vf
 
 CFG = """CONSTANT NamePool = {"n1", "n2", "n3", "n4"}
@@ -47,11 +48,16 @@ def run(ctx):
         seen.add(k)
         ctx.report("%s on line %r: %s: spec %s, code %s" % (m["entry"], m["line"], m["why"], m["expected"], m["got"]),
                    {"reexec": ["replay-hosts"], "input": [m["case"]]}, {"cause": m["cause"]})
+    # ---- which lines are hosts entries at all, and what the other parsers leave to this one: spec/LineKind.tla ----
+    ctx.rule += "; plus the line classification of LineKind.tla (see C12) on every line of <= 3/4 tokens and on random longer lines"
+    linekindcheck.run(ctx, 3 if ctx.tier == "quick" else 4, 10000 if ctx.tier == "quick" else 150000)
 
 
 def replay(ctx, path):
     ctx.build()
     obj = json.load(open(path))
+    if obj.get("reexec") == ["replay-linekind"]:
+        return linekindcheck.replay(ctx, obj)
     s, mism = replay_cases(ctx, obj["input"])
     print(json.dumps({"mismatches": [{k: m[k] for k in ("line", "entry", "why", "expected", "got")} for m in mism[:4]]}, indent=1))
     return 1 if mism else 0
